@@ -201,6 +201,14 @@ func runNameCase(c nameCase) tr.Ev {
 			rc.W = &wc
 		}
 		out, derr := kz.Decompress(stream, rc, nil, nil, nil, len(data)+1<<20)
+		if derr == nil && c.Hless && string(out) == string(data) {
+			// ... and with the names spelled as the writer was given them: the reader accepts any letter case too
+			ws := w
+			out, derr = kz.Decompress(stream, kz.RCfg{Jobs: 1, W: &ws}, nil, nil, nil, len(data)+1<<20)
+			if derr != nil {
+				derr = fmt.Errorf("reader given the spelling %s&%s: %v", sp, esp, derr)
+			}
+		}
 		if derr != nil {
 			ev["rt"] = "decode: " + errText(derr)
 		} else if string(out) != string(data) {
